@@ -23,6 +23,7 @@ LAYER = {1: "value: the value read back is not an equal value of the correspondi
          4: "get: the value read differs from the model's reading of the same attributes",
          5: "persistence: the stored attributes changed through re-parse or save / reload"}
 FIDELITY = 8
+MODEL_ERR = 7
 NS = dict(office="urn:oasis:names:tc:opendocument:xmlns:office:1.0", text="urn:oasis:names:tc:opendocument:xmlns:text:1.0",
           table="urn:oasis:names:tc:opendocument:xmlns:table:1.0", meta="urn:oasis:names:tc:opendocument:xmlns:meta:1.0")
 Q = lambda p, n: "{%s}%s" % (NS[p], n)
@@ -344,7 +345,10 @@ def run(tier, seed, replay=None):
         driven = [d for d in driven if d[0] == only]
     cases = [d[2] for d in driven]
     bad, errors = common.run_shards(HEADER, cases, "chk", "c06", shard=120)
-    hard = {i: c for i, c in bad.items() if c != FIDELITY}
+    hard = {i: c for i, c in bad.items() if c not in (FIDELITY, MODEL_ERR)}
+    for i, c in bad.items():
+        if c == MODEL_ERR:
+            errors.append("model error: Typed.dec_of_text (str_of_dec d) is not d for %s" % driven[i][2][:200])
     known = {e["key"]: e for e in common.known_findings(PROP)}
     violations, known_seen, reported = [], [], set()
     for i in sorted(hard):
